@@ -5,6 +5,7 @@ import sys
 sys.path.insert(0, os.path.dirname(os.path.abspath(__file__)))
 import checklib
 import clientgen
+import clientnet
 
 
 def suites(tier, rng, replay):
@@ -12,11 +13,16 @@ def suites(tier, rng, replay):
                                   {"c17": "c17_monitor @QCAP@"}, 260, 4000, 17000)]
 
 
+def extra(tier, rng, workdir):
+    return clientnet.evaluate("C17", tier, rng, workdir)
+
+
 SPEC = {
     "pid": "C17",
+    "extra": extra,
     "props_file": "props/C17.v",
     "suites": suites,
-    "keyfn": clientgen.keyfn,
+    "keyfn": lambda rec: clientnet.key_for(rec) if rec.get("suite") == "clientnet" else clientgen.keyfn(rec),
     "trusted_base": [
         "Coq 8.16.1 kernel (coqc); vm_compute for evaluating model and monitor on the cases; no native_compute",
         "axioms: none declared; Print Assumptions recorded under print_assumptions",
